@@ -11,6 +11,10 @@
 (* returns.  (Conservative reading: nothing is required of a call made     *)
 (* while dirty.)                                                           *)
 (*                                                                         *)
+(* A target-position value `p \in Poss` stands for everything Field.set_pos *)
+(* takes: the coordinate tuple AND the mesh type (the same tuple read as   *)
+(* the axes of a structured grid is a different position).                 *)
+(*                                                                         *)
 (* CODE-SHAPED layer: what the objects keep between calls — the inverted   *)
 (* kriging matrix (`mat`, provenance = configuration at the last           *)
 (* set_condition), the fields stored in the Krige object (`kvar`) and in   *)
